@@ -499,7 +499,10 @@ def next_psuedo_matches(state: TokenizerState) -> TokenInfo | None:
             if state.in_braces() and state.at_parenlev():
                 state.pop_mode((state.lnum, end))
             state.parenlev -= 1
-        elif token == ":" and state.in_braces() and state.at_parenlev():
+        elif token in (":", ":=") and state.in_braces() and state.at_parenlev():
+            if token == ":=":  # at the top level of a replacement field ':=' is ':' + a spec starting with '='
+                token, end = ":", start + 1
+                epos, state.pos = (state.lnum, end), end
             quote = next((p.quote for p in reversed(state.end_progs) if isinstance(p.mode, ModeMiddle)), "")
             state.add_prog(start + 1, end, quote=quote, mode=ModeInColon(state.parenlev))
         token_type = Token.OP
